@@ -444,6 +444,8 @@ StepExpE(cfg, o, ln) ==
                    THEN {W("C18.missed", m[1][1], ln.b, "", ln.x, "")} ELSE {})
              \cup (IF ln.e = 0 /\ ln.err = "Timeout" /\ (x.tmo < 0 \/ ln.t < x.t0 + x.tmo) THEN {W("C18.early_timeout", 0, ln.b, "", ln.x, "")} ELSE {})
              \cup (IF ln.e = 0 /\ ln.err \notin {"Timeout", "Cancelled"} THEN {W("C18.raised", 0, ln.b, "", ln.x, ln.err)} ELSE {})
+             \* the timeout is a deadline for the whole call: it neither fires late nor lets a later match through
+             \cup (IF x.tmo >= 0 /\ ln.err # "Cancelled" /\ ln.t > x.t0 + x.tmo THEN {W("C18.late", ln.e, ln.b, "", ln.x, ln.err)} ELSE {})
   IN AddW(o1, w)
 
 \* ------------------------------------------------------------------------
